@@ -31,6 +31,7 @@ SIZES = {'quick': dict(ds=12, targeted=2, library=8), 'thorough': dict(ds=400, t
 REQUIRED = {
     tier: {
         'file-sets-checked': 16,
+        'datasets-with-more-than-512-rise-levels': 1,
         'library-sessions-with-files-before-and-after-the-recession-curve': 2,
         'control-file-counts-checked': 16,
         'observations-compared-bit-for-bit': 500,
@@ -311,6 +312,13 @@ def random_params(rng, kind, zlo, zhi):
 
 def prepare_dataset(ctx, rng, index, planted=True):
     case = gen_planted.gen(rng) if planted else gen_planted.gen_noisy(rng)
+    if index % 3 == 1 and index < 1000:
+        # a fine grid: more than 512 levels in the master curves (long observation vectors)
+        zs = [v for _, v in case['z']]
+        span = max(zs) - min(zs)
+        fine = [g for g in (0.5, 0.25, 0.2, 0.1, 0.05, 0.02) if span / g >= 600]
+        if fine:
+            case['grid_step'] = fine[0]
     db = os.path.join(ctx.workdir, 'k{}.sqlite3'.format(index))
     err = curves_common.make_curves_db(ctx, case, db, curvature=rng.choice([2.36, 0.5, 1.0]))
     if err:
@@ -327,7 +335,9 @@ def run_dataset(ctx, rng, index):
     case, db, info = prepare_dataset(ctx, rng, index, planted=index % 3 != 2)
     if db is None:
         return
-    zlo, zhi, _ = info
+    zlo, zhi, rise_rows = info
+    if len(rise_rows) > 512:
+        ctx.rec.hit('datasets-with-more-than-512-rise-levels')
     for kind in ('spline', 'peatclsm'):
         params = random_params(rng, kind, zlo, zhi)
         pfile = curves_common.write_yaml(os.path.join(ctx.workdir, 'k{}_{}.yml'.format(index, kind)), params)
